@@ -1,6 +1,6 @@
 (* C07 proofs, part 2: context predicates, compileTerm on atoms, quiet tokens, balanced rendering. *)
 From Coq Require Import List NArith Bool Arith Lia.
-From CV Require Import Ast.Defs Ast.Basics.
+From CV Require Import Ast.Defs Ast.Frag Ast.Basics.
 Import ListNotations.
 
 Definition mkafter (s : st) (ts : list ptok) (a : ast) : st :=
@@ -31,8 +31,6 @@ Definition pstart (b ts : list ptok) : Prop :=
 
 Definition is_numt (t : tok) : bool := match t with TNum _ => true | _ => false end.
 (* no juxtaposition: the next token is neither a name nor a number *)
-Definition is_q (t : tok) : bool := match t with TQ => true | _ => false end.
-Definition hasq (ts : list ptok) : bool := existsb (fun t => is_q (snd t)) ts.
 
 Lemma hasq_app : forall a b, hasq (a ++ b) = hasq a || hasq b.
 Proof. intros. unfold hasq. apply existsb_app. Qed.
